@@ -12,13 +12,19 @@ def setup():
     from harness import fixtures
 
     fixtures.generate()
-    # regenerate tables for every property that has a translator, then build everything
-    for f in sorted(os.listdir(os.path.dirname(os.path.abspath(__file__)))):
-        if len(f) == 6 and f.startswith("c") and f.endswith(".py") and f[1:3].isdigit():
-            mod = importlib.import_module("harness." + f[:-3])
-            if hasattr(mod, "regenerate_tables"):
-                mod.regenerate_tables(common.Ctx(mod.PID, "quick", 0))
-    rc, out = common.coq_make()
+    with open(os.path.join(common.VERIF, "MANIFEST.json")) as f:
+        pids = sorted({c["property_id"] for c in json.load(f)["checks"]})
+    # regenerate tables (translator) for every claimed property that has one
+    for pid in pids:
+        mod = importlib.import_module("harness." + pid.lower())
+        if hasattr(mod, "regenerate_tables"):
+            mod.regenerate_tables(common.Ctx(pid, "quick", 0))
+    # build the theories of the claimed properties (others may be under construction)
+    targets = []
+    for pid in pids:
+        for f in ("Property.vo", "Corr.vo"):
+            targets.append(os.path.join("theories", pid, f))
+    rc, out = common.coq_make(targets)
     print(out[-3000:])
     return rc
 
